@@ -167,10 +167,11 @@ CHECKS = {
             "Theorems for all bit strings, slice parameters and fuel over self-contained models of BOTH slice readers (validator: bits_left/flush_inputb; "
             "deserialiser: bounded blocks, clamped slice_y_length): when the validator reads a slice the deserialiser reads it too, leaves the same unread bits, "
             "and its dequantised coefficients equal the validator's; qindex/length fields agree; they fail together except for InvalidSliceYLength, raised by the "
-            "validator exactly when the deserialiser clamps; padding bits are irrelevant; whole slice sequences agree. Header part: for every bit string, whenever the validator model reads a sequence header "
-            "or fragment header without a conformance error, the deserialiser's description run by the SerDes interpreter succeeds on the same bits, consumes the "
-            "same number of bits and stores exactly the validator's field values (C08_sequence_header_agree, C08_fragment_header_agree). PARTIAL: picture header, "
-            "transform parameters, parse_info and the data-unit sequence are compared only by the differential oracle.",
+            "validator exactly when the deserialiser clamps; padding bits are irrelevant; whole slice sequences agree. Header part: for every bit string, whenever the validator model reads a sequence header, parse_info, picture header, "
+            "transform parameters (any version/profile, custom matrices of any depth) or fragment header without a conformance error, the deserialiser's description "
+            "program run by the SerDes interpreter succeeds on the same bits, consumes the same number of bits and stores field for field the validator's values "
+            "(C08_*_agree); the descriptions are tied to bitstream/vc2.py by differential runs (C06 harness, tools/harness/C08_headers.py). PARTIAL: padding/auxiliary "
+            "bodies, the whole-data-unit/stream composition and behaviour on rejected streams are compared only by the differential oracle.",
             C_TIE + "Geometry/quantisation/intlog2/mean are tie T.",
             "Coq proofs relating two reader models + per-slice differential run of both real parsers + whole-stream oracle",
             "DESIGN.md 3 C08"),
